@@ -1547,6 +1547,17 @@ def gen_dispatch():
          'let (resolved_type_name, type_env) = super::util::resolve_type_name(genv, &type_name); let type_ident = tast::TastIdent(resolved_type_name.clone());'),
         (chk, "dot form of an inherent call looks the method up under the receiver's type",
          'let receiver_ty = receiver_tast.get_ty(); if let Some(method_ty) = lookup_inherent_method_for_ty( genv, &receiver_ty, &tast::TastIdent(field.to_ident_name()), ) {'),
+        # which package's environment each inherent call form asks (Model/MethodEnv.lean)
+        (chk, "path form: the first lookup goes to the environment of the package that DEFINES the named type",
+         'let mut method_lookup = type_env.lookup_inherent_method(&receiver_ty, &member_ident);'),
+        (chk, "path form: the overlap guard is put to the environment of the package that DEFINES the named type, not to genv.current()",
+         'if let Some(first_arg) = args.first() && type_env .trait_env .instantiation_impl_defines(&resolved_type_name, &member_ident) {'),
+        (chk, "dot form: lookup_inherent_method_for_ty asks env_for_receiver_ty",
+         'let env = env_for_receiver_ty(genv, receiver_ty); env.lookup_inherent_method(receiver_ty, method)'),
+        (chk, "env_for_receiver_ty: the environment the constructor name resolves to, through type applications",
+         'match receiver_ty { tast::Ty::TEnum { name } | tast::Ty::TStruct { name } => { let (_resolved, env) = super::util::resolve_type_name(genv, name); env } tast::Ty::TApp { ty, .. } => env_for_receiver_ty(genv, ty), tast::Ty::TRef { .. } | tast::Ty::TVec { .. } => genv.current(), _ => genv.current(), }'),
+        (re.sub(r"\s+", " ", _src("crates/compiler/src/typer/util.rs")), "resolve_type_name",
+         'if name == "Self" { return (name.to_string(), genv.current()); } if let Some((package, rest)) = name.split_once("::") { if package == "Builtin" { return (rest.to_string(), genv.current()); } if package == "Main" && genv.package == "Main" { return (rest.to_string(), genv.current()); } if package == genv.package { return (name.to_string(), genv.current()); } if let Some(dep) = genv.deps.get(package) { return (name.to_string(), dep); } return (name.to_string(), genv.current()); } if genv.package == "Main" || genv.package == "Builtin" { (name.to_string(), genv.current()) } else { (format!("{}::{}", genv.package, name), genv.current()) }'),
         (nm, "parse_inherent_method_fn_name", 'let mut parts = name.split(\'#\'); if parts.next()? != "inherent" { return None; } let base = parts.next()?; let _ty = parts.next()?; let method = parts.next()?; if parts.next().is_some() { return None; } Some((base, method))'),
     ]
     for text, what, frag in want:
